@@ -32,11 +32,15 @@ pub uninterp spec fn assignment_ident(a: &Assignment) -> Ident;
 pub uninterp spec fn assignment_value(a: &Assignment) -> Value;
 #[verifier::external_body] pub fn assignment_new(ident: Ident, value: Value) -> (r: Assignment) ensures assignment_ident(&r) == ident, assignment_value(&r) == value { unimplemented!() }
 // Ident::link_force_no_inherit: sets the type, registers the dependency; name and const flag untouched
-#[verifier::external_body] pub fn link_force_no_inherit(i: &mut Ident, n: &Node, ty: TypeLayout) -> (r: Result<(), VErr>)
-    ensures final(i).name == old(i).name, final(i).read_only == old(i).read_only, final(i).ty == Some(ty) { unimplemented!() }
+// the entry the current scope holds for the name this statement declares (ghost): what later statements of the function find
+pub struct Reg { pub entry: Ghost<Option<Ident>> }
+#[verifier::external_body] pub fn link_force_no_inherit(i: &mut Ident, n: &Node, ty: TypeLayout, reg: &mut Reg) -> (r: Result<(), VErr>)
+    ensures final(i).name == old(i).name, final(i).read_only == old(i).read_only, final(i).ty == Some(ty), r is Ok ==> final(reg).entry@ == Some(*final(i)) { unimplemented!() }
+// AssocFileData::add_dependency: the scope's entry for the name is replaced by this identifier (unit c10_scope_add)
+#[verifier::external_body] pub fn add_dependency(reg: &mut Reg, i: &Ident) ensures final(reg).entry@ == Some(*i) { unimplemented!() }
 // Value::associate_with_ident: infers and sets the type; name and const flag untouched
-#[verifier::external_body] pub fn associate_with_ident(v: &Value, i: &mut Ident, n: &Node) -> (r: Result<(), VErr>)
-    ensures final(i).name == old(i).name, final(i).read_only == old(i).read_only, r is Ok ==> final(i).ty is Some { unimplemented!() }
+#[verifier::external_body] pub fn associate_with_ident(v: &Value, i: &mut Ident, n: &Node, reg: &mut Reg) -> (r: Result<(), VErr>)
+    ensures final(i).name == old(i).name, final(i).read_only == old(i).read_only, r is Ok ==> final(i).ty is Some && final(reg).entry@ == Some(*final(i)) { unimplemented!() }
 #[verifier::external_body] pub fn map_err_messages(r: Result<(), VErr>, s: Span, n: &Node) -> (o: Result<(), VErr>) ensures o is Ok <==> r is Ok { unimplemented!() }
 """
 
@@ -95,11 +99,12 @@ def assign_rules(typed):
         Rule("R6", "! ty . as_ref ( ) . get_type_recursively ( ) . eq_complex ( assignment_ty . get_type_recursively ( ) , & TypecheckFlags :: use_class ( self_type ) . lhs_unwrap ( false ) , )",
              "! eq_complex ( & ty , assignment_ty , self_type , false )", why="declared.eq_complex(value type, lhs_unwrap(false)); callback wrappers disregarded on both sides"),
         Rule("R3", "let hint = $$a ; let message = $$b ; return Err ( $$c ) ;", "return Err ( VErr ) ;", why="diagnostic text dropped"),
-        Rule("R6", "ident . link_force_no_inherit ( input . user_data ( ) , ty ) . to_err_vec ( ) ?", "link_force_no_inherit ( & mut ident , & input , ty ) ?", why="abstract callee"),
+        Rule("R6", "ident . link_force_no_inherit ( input . user_data ( ) , ty ) . to_err_vec ( ) ?", "link_force_no_inherit ( & mut ident , & input , ty , verif_reg ) ?", why="abstract callee (registers the typed identifier in the current scope)"),
+        Rule("R6", "input . user_data ( ) . add_dependency ( & ident ) ;", "add_dependency ( verif_reg , & ident ) ;", why="AssocFileData::add_dependency: the scope's entry for the name"),
         Rule("R6", "ident . wrap_in_callback ( ) . to_err_vec ( ) ?", "ident . wrap_in_callback ( ) ?", why="error vector wrapper dropped"),
         Rule("R6", "Assignment :: new ( ident , value )", "assignment_new ( ident , value )", why="abstract constructor"),
         Rule("R6", "let user_data = input . user_data ( ) ;", "", why="scope data handle dropped"),
-        Rule("R6", "value . associate_with_ident ( & mut ident , user_data )", "associate_with_ident ( & value , & mut ident , & input )", why="abstract callee"),
+        Rule("R6", "value . associate_with_ident ( & mut ident , user_data )", "associate_with_ident ( & value , & mut ident , & input , verif_reg )", why="abstract callee (registers the typed identifier in the current scope)"),
         Rule("R6", "map_err_messages ( maybe_error , $$rest ) . to_err_vec ( ) ?", "map_err_messages ( maybe_error , as_span ( & input ) , & input ) ?", why="diagnostic text dropped"),
         Rule("R1", "let ident : Node =", "let ident =", why="type ascription on an abstract node"),
         Rule("R1", "let ty : Node =", "let ty =", why="type ascription"), Rule("R1", "let value : Node =", "let value =", why="type ascription"),
@@ -124,10 +129,13 @@ def build(repo):
         // the declared ident: named after the first child; `const` makes it read-only; `modify` marks it as a captured variable
         r is Ok ==> str_view(&assignment_ident(&r->Ok_0.0).name) == node_text(&node_children(&input)[0]),
         (r is Ok && is_const) ==> assignment_ident(&r->Ok_0.0).read_only,
-        (r is Ok && is_modify) ==> assignment_ident(&r->Ok_0.0).ty is Some && is_callback_ty(assignment_ident(&r->Ok_0.0).ty->Some_0),"""
+        (r is Ok && is_modify) ==> assignment_ident(&r->Ok_0.0).ty is Some && is_callback_ty(assignment_ident(&r->Ok_0.0).ty->Some_0),
+        // what the scope holds for the name afterwards IS the declared identifier: after a `modify` the name stands for the captured variable in the rest of
+        // the function too (a later `modify` in a nested block finds it as such -- D116), after a declaration for the typed variable
+        r is Ok ==> final(verif_reg).entry@ == Some(assignment_ident(&r->Ok_0.0)),"""
     gen = header(log, f"{IDENT}: Ident flag methods; {AT}: Parser::assignment_type; {ANT}: Parser::assignment_no_type") + prelude("parser.rs") + SPEC + ident + UD + f"""
 //@ OBL C10.assignment_type
-pub fn assignment_type(input: Node, is_const: bool, is_modify: bool, self_type: Option<&ClassType>) -> (r: Result<(Assignment, Option<Ident>), VErr>)
+pub fn assignment_type(input: Node, is_const: bool, is_modify: bool, self_type: Option<&ClassType>, verif_reg: &mut Reg) -> (r: Result<(Assignment, Option<Ident>), VErr>)
     requires node_children(&input).len() >= 3          // grammar: assignment_type = {{ ident ~ ":" ~ type ~ "=" ~ value }}
     ensures{common_post}
         // C03: a typed declaration whose value has a known type that is not compatible with the declared type is rejected
@@ -138,7 +146,7 @@ pub fn assignment_type(input: Node, is_const: bool, is_modify: bool, self_type: 
 }}
 
 //@ OBL C10.assignment_no_type
-pub fn assignment_no_type(input: Node, is_const: bool, is_modify: bool) -> (r: Result<(Assignment, Option<Ident>), VErr>)
+pub fn assignment_no_type(input: Node, is_const: bool, is_modify: bool, verif_reg: &mut Reg) -> (r: Result<(Assignment, Option<Ident>), VErr>)
     requires node_children(&input).len() >= 2          // grammar: assignment_no_type = {{ ident ~ "=" ~ value }}
     ensures{common_post}
 {{
